@@ -571,9 +571,9 @@ def run(ck, build):
     ck.config("H", "N0")
     label = "H/N0"
     n_c, n_l, offs, incs = census(ck, mod, label)
-    ck.floor("R-C16-CENSUS", "writes to reseed_counter", n_c, 6)
-    ck.floor("R-C16-CENSUS", "writes to reseed_limit", n_l, 3)
-    ck.floor("R-C16-CENSUS", "functions taking the PRNG state", len(prng_fns(mod)), 7)
+    ck.floor("R-C16-CENSUS", "writes to reseed_counter", n_c, 3)
+    ck.floor("R-C16-CENSUS", "writes to reseed_limit", n_l, 2)
+    ck.floor("R-C16-CENSUS", "functions taking the PRNG state", len(prng_fns(mod)), 6)
     n = guard_rule(ck, mod, offs, incs, label)
     ck.floor("R-C16-GUARD", "emission sites", n, 1)
     # positive control
